@@ -461,7 +461,10 @@ pub trait Cfg: 'static {
     fn extend(v: &mut Self::V, cols: &[Key]);
     fn collect(cols: &[Key]) -> Self::V;
     fn drain(v: &mut Self::V, r: Rng, sc: Script, tr: &mut Trace);
-    fn get_i(v: &Self::V, i: usize) -> Option<Key>;
+    /// get(index) on the Vec-backed container and on array, &[T], &mut [T] and Box<[T]> backed
+    /// copies: five `Ret` tokens
+    fn get_i(v: &Self::V, i: usize, tr: &mut Trace);
+    /// get(range) on the same five backings
     fn get_r(v: &Self::V, r: Rng, tr: &mut Trace);
     fn get_mut_i(v: &mut Self::V, i: usize, c: &Key) -> Option<Key>;
     fn get_mut_r(v: &mut Self::V, r: Rng, cols: &[Key], shift: usize, tr: &mut Trace);
@@ -487,6 +490,23 @@ pub fn arr<const N: usize>(s: &[f32]) -> [f32; N] {
     let mut a = [0f32; N];
     a.copy_from_slice(&s[..N]);
     a
+}
+
+/// `$go!(N)` with N = `$len` as a literal (array backings need the length as a const).
+#[macro_export]
+macro_rules! by_len {
+    ($len:expr, $go:ident) => {
+        match $len {
+            0 => $go!(0),
+            1 => $go!(1),
+            2 => $go!(2),
+            3 => $go!(3),
+            4 => $go!(4),
+            5 => $go!(5),
+            6 => $go!(6),
+            _ => panic!("harness: array backing beyond 6 elements not instantiated"),
+        }
+    };
 }
 
 /// Implements `Cfg` for a family; the body is the same token sequence for plain, hue-bearing
@@ -528,27 +548,77 @@ macro_rules! impl_cfg {
             fn drain(v: &mut Self::V, r: Rng, sc: Script, tr: &mut Trace) {
                 $crate::with_range!(r, rr => run_script(v.drain(rr), sc, tr, |c, _| key::<$fam>(c)))
             }
-            fn get_i(v: &Self::V, i: usize) -> Option<Key> {
-                v.get(i).map(|c| key::<$fam>(c.copied()))
+            fn get_i(v: &Self::V, i: usize, tr: &mut Trace) {
+                tr.push(Tok::Ret(v.get(i).map(|c| key::<$fam>(c.copied()))));
+                let mut bufs = <$fam as Fam>::bufs(v);
+                {
+                    let mut it = bufs.iter();
+                    let s: <$fam as Fam>::Of<&[f32]> = <$fam as Fam>::build(&mut || &it.next().unwrap()[..]);
+                    tr.push(Tok::Ret(s.get(i).map(|c| key::<$fam>(c.copied()))));
+                }
+                {
+                    let mut it = bufs.iter_mut();
+                    let s: <$fam as Fam>::Of<&mut [f32]> = <$fam as Fam>::build(&mut || &mut it.next().unwrap()[..]);
+                    tr.push(Tok::Ret(s.get(i).map(|c| key::<$fam>(c.copied()))));
+                }
+                macro_rules! go {
+                    ($n:literal) => {{
+                        let mut it = bufs.iter();
+                        let s: <$fam as Fam>::Of<[f32; $n]> = <$fam as Fam>::build(&mut || $crate::ops::arr::<$n>(it.next().unwrap()));
+                        tr.push(Tok::Ret(s.get(i).map(|c| key::<$fam>(c.copied()))));
+                    }};
+                }
+                $crate::by_len!(bufs[0].len(), go);
+                {
+                    let mut it = bufs.drain(..);
+                    let s: <$fam as Fam>::Of<Box<[f32]>> = <$fam as Fam>::build(&mut || it.next().unwrap().into_boxed_slice());
+                    tr.push(Tok::Ret(s.get(i).map(|c| key::<$fam>(c.copied()))));
+                }
             }
             fn get_r(v: &Self::V, r: Rng, tr: &mut Trace) {
-                let got: Option<<$fam as Fam>::Of<&[f32]>> = $crate::with_range!(r, rr => v.get(rr));
-                match got {
-                    None => tr.push(Tok::Slice(None)),
-                    Some(c) => {
-                        // read the returned component slices directly
-                        let mut comps: Vec<&[f32]> = vec![];
-                        <$fam as Fam>::split(c, &mut |s: &[f32]| comps.push(s));
-                        tr.push(Tok::Slice(Some(comps.iter().map(|s| s.len()).collect())));
-                        let n = comps.iter().map(|s| s.len()).min().unwrap_or(0);
-                        for j in 0..n {
-                            let mut k = [0u32; $crate::ops::MAXC];
-                            for (i, s) in comps.iter().enumerate() {
-                                k[i] = s[j].to_bits();
+                // the returned colour of slices is taken apart and its component slices read directly
+                fn record(got: Option<<$fam as Fam>::Of<&[f32]>>, tr: &mut Trace) {
+                    match got {
+                        None => tr.push(Tok::Slice(None)),
+                        Some(c) => {
+                            let mut comps: Vec<&[f32]> = vec![];
+                            <$fam as Fam>::split(c, &mut |s: &[f32]| comps.push(s));
+                            tr.push(Tok::Slice(Some(comps.iter().map(|s| s.len()).collect())));
+                            let n = comps.iter().map(|s| s.len()).min().unwrap_or(0);
+                            for j in 0..n {
+                                let mut k = [0u32; $crate::ops::MAXC];
+                                for (i, s) in comps.iter().enumerate() {
+                                    k[i] = s[j].to_bits();
+                                }
+                                tr.push(Tok::Item(Some(k)));
                             }
-                            tr.push(Tok::Item(Some(k)));
                         }
                     }
+                }
+                record($crate::with_range!(r, rr => v.get(rr)), tr);
+                let mut bufs = <$fam as Fam>::bufs(v);
+                {
+                    let mut it = bufs.iter();
+                    let s: <$fam as Fam>::Of<&[f32]> = <$fam as Fam>::build(&mut || &it.next().unwrap()[..]);
+                    record($crate::with_range!(r, rr => s.get(rr)), tr);
+                }
+                {
+                    let mut it = bufs.iter_mut();
+                    let s: <$fam as Fam>::Of<&mut [f32]> = <$fam as Fam>::build(&mut || &mut it.next().unwrap()[..]);
+                    record($crate::with_range!(r, rr => s.get(rr)), tr);
+                }
+                macro_rules! go {
+                    ($n:literal) => {{
+                        let mut it = bufs.iter();
+                        let s: <$fam as Fam>::Of<[f32; $n]> = <$fam as Fam>::build(&mut || $crate::ops::arr::<$n>(it.next().unwrap()));
+                        record($crate::with_range!(r, rr => s.get(rr)), tr);
+                    }};
+                }
+                $crate::by_len!(bufs[0].len(), go);
+                {
+                    let mut it = bufs.drain(..);
+                    let s: <$fam as Fam>::Of<Box<[f32]>> = <$fam as Fam>::build(&mut || it.next().unwrap().into_boxed_slice());
+                    record($crate::with_range!(r, rr => s.get(rr)), tr);
                 }
             }
             fn get_mut_i(v: &mut Self::V, i: usize, c: &Key) -> Option<Key> {
@@ -669,16 +739,7 @@ macro_rules! impl_cfg {
                                 }
                             }};
                         }
-                        match len {
-                            0 => go!(0),
-                            1 => go!(1),
-                            2 => go!(2),
-                            3 => go!(3),
-                            4 => go!(4),
-                            5 => go!(5),
-                            6 => go!(6),
-                            _ => panic!("harness: array backing beyond 6 elements not instantiated"),
-                        }
+                        $crate::by_len!(len, go);
                     }
                 }
             }
